@@ -11,9 +11,10 @@ Covered C functions: `esl_getopts_Create` (default verification), `esl_getopts_R
 `parse_rangestring`, `esl_str_IsInteger`, `esl_str_IsReal`, `esl_strtok`, and the queries `IsDefault IsOn IsUsed
 GetSetter GetBoolean GetInteger GetReal GetChar GetString GetArg ArgNumber`.
 
-Behaviour after the two landed `fix:` commits (DESIGN §7 item 2; 8d4fde4):
+Behaviour after the landed `fix:` commits (DESIGN §7 item 2; 8d4fde4; df08745):
 * `process_stdopt`: only a single-character option `-c` matches the option character `c` of a cluster;
-* `esl_opt_ProcessConfigfile`: an option that takes an argument and has none on its line is a usage error.
+* `esl_opt_ProcessConfigfile`: an option that takes an argument and has none on its line is a usage error;
+* a second `esl_opt_ProcessSpoof` on one object returns `eslEINVAL` with a message and leaves the object untouched.
 
 Core Lean only (imported by the driver). -/
 namespace EaselModel.Getopts
